@@ -53,10 +53,14 @@ package b6
 //@   trusted
 //@   pure
 //@   ensures implies(result1 == nil, result0 == (VerifAnyRank(a) < VerifAnyRank(b)))
+//@   ensures implies(VerifComparable(a, b), result1 == nil)
 //@ func Equal
 //@   trusted
 //@   pure
 //@   ensures implies(result1 == nil, result0 == (VerifAnyRank(a) == VerifAnyRank(b)))
+//@   ensures implies(VerifComparable(a, b), result1 == nil)
+//@ func VerifComparable
+//@   opaque
 
 // ---- C16: b6.Features as seen by the merging iterators -------------------------------
 // Assumed for every implementation (this is the interface's documented promise): Next
